@@ -1,6 +1,6 @@
 (* C15 runner.  Evaluates the extracted predicate Hooks.holds_C15 on every crash-point
-   observation and on every unit projection (unitobs: Hooks.unit_obs_diff classifies "the unit
-   reported failure" + the changes of what it writes), "the hook returned" on every environment
+   observation and on every unit projection (unitobs: Hooks.trigger_obs_diff classifies "the unit
+   reported failure" + the changes of what it writes into nothing / complete / partial), "the hook returned" on every environment
    case, and cross-checks the model:
    - Hooks.table_says_wrapped unit must agree with where the harness saw the unit's store accesses
      (inside an ApplyFuncIfNoError instance or not);
@@ -71,14 +71,16 @@ let run (path : string) =
           end else
             predfail ~case:!case ~step:!steps ~pred:"hook_returns" ~kf:"none" ~detail:(name ^ "_panicked_in_" ^ at)
         end
-      | "unitobs" :: unit :: failed :: deltas ->
+      | "unitobs" :: unit :: failed :: dcoll :: dnet :: dlocked :: dauction :: dactive :: _ ->
         incr steps;
         let f = bool_of_tok failed in
-        bump ("unitobs:" ^ unit ^ (if f then ":reported-failure" else ":ok"));
-        let diff = Hooks.unit_obs_diff f (L.map z_of_string deltas) in
+        let diff = Hooks.trigger_obs_diff f (z_of_string dcoll) (z_of_string dnet) (z_of_string dlocked) (z_of_string dauction) (z_of_string dactive) in
+        bump ("unitobs:" ^ unit ^ (if f then ":reported-failure" else ":no-failure") ^ ":diff" ^ string_of_z diff);
+        if string_of_z diff <> "0" then case_work := true;
         if not (Hooks.holds_C15 true diff true) then
           predfail ~case:!case ~step:!steps ~pred:"holds_C15" ~kf:"none"
-            ~detail:(Printf.sprintf "unit=%s_reported_failure_but_its_writes_are_visible_deltas=%s" unit (S.concat "," deltas))
+            ~detail:(Printf.sprintf "unit=%s_partial_writes_visible_failed=%s_dcoll=%s_dnet=%s_dlocked=%s_dauction=%s_dactive=%s"
+                       unit failed dcoll dnet dlocked dauction dactive)
       | "probe" :: m :: wraps :: cls :: _ ->
         incr steps;
         if cls = "panic" then
